@@ -18,7 +18,9 @@ VEC = J("vec", 20000, 1500000)
 
 CSTR = J("cstr", 20000, 1500000)
 
-ALL_JOBS = [ARC, VEC, CSTR]
+WAKER = J("waker", 20000, 1500000)
+
+ALL_JOBS = [ARC, VEC, CSTR, WAKER]
 
 PROPS = {
     "C10": {
@@ -38,6 +40,12 @@ PROPS = {
         "real": ["cglue::repr_cstring (ReprCString, ReprCStr, string_size)"],
         "stub": ["global allocator (simalloc: red zones, non-zero fill, layout matching, leak accounting)"],
         "assumptions": COMMON_ASSUMPTIONS + ["inputs are valid UTF-8 as the property states; only the system allocator's behaviour is simulated, not allocation failure"],
+    },
+    "C19": {
+        "jobs": [WAKER],
+        "real": ["cglue::task (CRefWaker, CRawWaker, OpaqueRawWakerVtbl)", "generated Future/Stream/Sink glue (trait_obj!)", "tarc::BaseArc", "std::task::Wake"],
+        "stub": ["polled value (the simulated plugin executes the plan's waker ops inside poll)", "counting Arc-based caller waker"],
+        "assumptions": COMMON_ASSUMPTIONS + ["bounds do not prescribe how many clones of the caller's waker the implementation takes per handle: between 1 (while any handle lives) and one per live handle"],
     },
 }
 
